@@ -11,7 +11,21 @@ if os.path.isdir("%s/demo" % dst):
     shutil.rmtree("%s/demo" % dst)
 shutil.copytree("%s/demo%d" % (src, k), "%s/demo" % dst, ignore=shutil.ignore_patterns("*.log"))
 notes = open("%s/NOTES.md" % src).read()
-ver = json.load(open("/tmp/seed/verify_result.json")).get("%s_%d" % (prop, k)) or json.load(open("/tmp/seed/verify_result_1.json")).get("%s_%d" % (prop, k), {})
+import glob
+ver = {}
+key = "%s_%d" % (prop, k)
+round2 = "out2" in src
+for f in sorted(glob.glob("/tmp/seed/verify_result*.json"), key=os.path.getmtime, reverse=True):
+    try:
+        d = json.load(open(f))
+    except Exception:
+        continue
+    v = d.get(key)
+    # round 1 and round 2 use the same keys: tell them apart by the demo path recorded with the result
+    if v and (("out2" in json.dumps(v.get("setup", [])) or "out2" in json.dumps(v.get("tests", []))) == round2) \
+            and v.get("head_demo_pass") and v.get("patched_demo_fails"):
+        ver = v
+        break
 meta = {
     "property": prop,
     "seed": "%s-%d" % (prop, num),
